@@ -207,8 +207,21 @@ pub fn catch_inner<T, F: FnOnce() -> T>(f: F) -> Result<T, (String, String)> {
     }
 }
 
+/// Put the SSE control/status register of this thread back to its power-on value.
+pub fn reset_fp_env() {
+    #[cfg(target_arch = "x86_64")]
+    unsafe {
+        let csr: u32 = 0x1F80;
+        std::arch::asm!("ldmxcsr [{}]", in(reg) &csr, options(nostack, readonly));
+    }
+}
+
 /// Run a check function, turning a panic into a failing verdict.
 pub fn guarded<F: FnOnce() -> Verdict>(f: F) -> Verdict {
+    // every case starts from the default floating-point environment of a thread (round to nearest, subnormals
+    // honoured): a control register left changed by an earlier case must not decide this one, or a failure
+    // would not reproduce from its replay file
+    reset_fp_env();
     QUIET.with(|q| *q.borrow_mut() = true);
     LAST_PANIC.with(|p| *p.borrow_mut() = None);
     let r = catch_unwind(AssertUnwindSafe(f));
